@@ -36,9 +36,22 @@ void ApiRun::enum_check_failed_attempt(const char *fn, int rc, long k, bool sq, 
     g_stats.inc(sq ? "fault.alloc_sqlite.fired" : "fault.alloc_libcif.fired");
     ev("%s under %s allocation failure #%ld -> %s", fn, sq ? "sqlite" : "libcif", k, rc_name(rc));
     g_stats.cover(hmix(hmix(hstr(fn), (uint64_t) k * 2 + (sq ? 1 : 0)), (uint64_t) rc));
-    if (rc != CIF_MEMORY_ERROR && rc != CIF_ERROR)
-        violate("code", strprintf("%s:%s:%s", fn, sq ? "sqlite" : "libcif", rc_name(rc)), strprintf("%s returned %s when %s allocation #%ld failed (CIF_MEMORY_ERROR or CIF_ERROR required)", fn, rc_name(rc), sq ? "storage-engine" : "library", k));
-    if (do_dump) check_all_dumps("after a failed allocation");
+    try {
+        if (rc != CIF_MEMORY_ERROR && rc != CIF_ERROR)
+            violate("code", strprintf("%s:%s:%s", fn, sq ? "sqlite" : "libcif", rc_name(rc)), strprintf("%s returned %s when %s allocation #%ld failed (CIF_MEMORY_ERROR or CIF_ERROR required)", fn, rc_name(rc), sq ? "storage-engine" : "library", k));
+        // cheap, after every failed attempt: no transaction may be left open behind the caller's back
+        tx_check(fn, rc, k, sq);
+        if (do_dump) check_all_dumps("after a failed allocation");
+    } catch (Violation &v) {
+        v.detail += strprintf(" [%s allocation #%ld failed at %s]", sq ? "storage-engine" : "library", k, (sq ? g_salloc : g_lalloc).describe_fire().c_str());
+        throw;
+    }
+}
+void ApiRun::tx_check(const char *fn, int rc, long k, bool sq) {
+    for (size_t i = 0; i < cifs.size(); ++i) if (cifs[i].cif && cifs[i].iter < 0) {
+        try { txm.check(cfg.prop, fn, rc, cifs[i].cif->db, strprintf("cif%zu", i).c_str(), sq, k); }
+        catch (Violation &v) { v.op_index = cur_op; throw; }
+    }
 }
 #define CALL(fnname, expr) api(fnname, [&]() { return (expr); })
 
@@ -331,10 +344,12 @@ RunResult ApiRun::run() {
             if (ops[i].off) continue;
             cur_op = (int) i; cur_kind = ops[i].k;
             exec(ops[i]);
+            if (absorbed_pending) { absorbed_pending = false; check_all_dumps("after a call that completed although an allocation failed"); }
         }
         cur_op = -1;
         teardown();
         check_leaks(live0, sq0);
+        txm.finish();
     } catch (Violation &) {
         g_lalloc.disarm(); g_salloc.disarm(); g_disk.disarm();
         throw;
